@@ -361,6 +361,29 @@ func init() {
 				judge(c, &in)
 			}
 		}
+		c.Phase("holders-matrix") // an item with two holders (DUP, OVER, PICK, alt stack, SPLIT halves ...), one of them transformed: the other must keep its value (the C08 matrix, judged here by stacks and verdict)
+		{
+			provs, xf := c08Matrix()
+			n := uint64(0)
+			for _, pv := range provs {
+				for _, x := range xf {
+					for oi, operand := range c08Operands {
+						n++
+						if !c.Case(n) {
+							continue
+						}
+						prog := append(append([]byte{}, pv.build(operand)...), x.ops(operand)...)
+						in := progInput{Flags: []uint32{0, uint32(scriptflag.UTXOAfterGenesis)}[(int(n)+oi)%2], Ctx: defaultCtx(), Src: "holders-matrix"}
+						if n%2 == 0 {
+							in.Lock = prog
+						} else {
+							in.Unlock, in.Lock = pv.build(operand), x.ops(operand)
+						}
+						judge(c, &in)
+					}
+				}
+			}
+		}
 		c.Phase("locktime-grid") // CHECKLOCKTIMEVERIFY / CHECKSEQUENCEVERIFY: operand encodings x flag sets x transaction lock time / sequence / version
 		{
 			h := func(s string) []byte { b, _ := vectors.ParseShort(s); return b }
